@@ -269,7 +269,12 @@ def run(ctx):
                 continue
             if model and iset != model["tree"]:
                 corr.append({"what": "the file read by an independent XML reader differs from the model's element tree: " + first_diff(iset, model["tree"]), "replay": {"spec": mspec}})
-            # (b) the tool's own reader
+            # (b) the tool's own reader - every third file is read in ANOTHER zone than it was written in (a manifest
+            # travels): the dates read are the instants written
+            if i % 3 == 0:
+                os.environ["TZ"] = TZS[(i // 3 + 2) % len(TZS)][0]
+                _time.tzset()
+                dist["read_in_other_zone"] = dist.get("read_in_other_zone", 0) + 1
             try:
                 back = obj_of_parsed(P.parse(fp))
             except Exception as e:
